@@ -1,0 +1,50 @@
+//go:build verif
+
+package ha
+
+// Verification seams (compiled only with -tags verif).  Thin exported wrappers around the
+// unexported message-handling entry points of the HA syncer; no logic of their own.
+
+import "net/http"
+
+// HandleSSEDataForVerif feeds one SSE data payload to the standby exactly as connectToStream does.
+func (s *HASyncer) HandleSSEDataForVerif(data []byte) error { return s.handleSSEData(data) }
+
+// PerformFullSyncForVerif runs one full synchronisation against config.Partner.Endpoint.
+func (s *HASyncer) PerformFullSyncForVerif() error { return s.performFullSync() }
+
+// ActiveHandlerForVerif returns the routes startActive registers, for use with httptest.
+func (s *HASyncer) ActiveHandlerForVerif() http.Handler {
+	mux := http.NewServeMux()
+	mux.HandleFunc("/ha/sessions", s.handleGetSessions)
+	mux.HandleFunc("/ha/sessions/stream", s.handleSessionStream)
+	mux.HandleFunc("/ha/health", s.handleHealth)
+	return mux
+}
+
+// AttachClientForVerif registers a client channel as handleSessionStream does (capacity 100 there).
+func (s *HASyncer) AttachClientForVerif(clientID string, capacity int) chan *SyncMessage {
+	ch := make(chan *SyncMessage, capacity)
+	s.sseClientsMu.Lock()
+	s.sseClients[clientID] = ch
+	s.sseClientsMu.Unlock()
+	return ch
+}
+
+// DetachClientForVerif removes a client channel as handleSessionStream's deferred cleanup does.
+func (s *HASyncer) DetachClientForVerif(clientID string) {
+	s.sseClientsMu.Lock()
+	delete(s.sseClients, clientID)
+	s.sseClientsMu.Unlock()
+}
+
+// BroadcastOneForVerif performs one iteration of broadcastLoop's pendingChanges case, without blocking.
+func (s *HASyncer) BroadcastOneForVerif() (*SyncMessage, bool) {
+	select {
+	case msg := <-s.pendingChanges:
+		s.broadcastToClients(msg)
+		return msg, true
+	default:
+		return nil, false
+	}
+}
